@@ -26,6 +26,13 @@ from trashcli.put.my_logger import LogData
 from trashcli.put.my_logger import MyLogger
 
 
+class UnableToPersistTrashInfo(NamedTuple('UnableToPersistTrashInfo', [
+    ('error', Exception),
+]), FailureReason):
+    def log_entries(self, context):  # type: (LogContext) -> str
+        return "failed to create the trashinfo file: %s" % (self.error,)
+
+
 class NoLog(FailureReason):
     def log_entries(self, context):  # type: (LogContext) -> str
         return ""
@@ -79,7 +86,10 @@ class Janitor:
             return make_error(trashinfo_data)
 
         persisting_job = self.persister.try_persist(trashinfo_data.value())
-        trashed_file = self.executor.execute(persisting_job, log_data)
+        try:
+            trashed_file = self.executor.execute(persisting_job, log_data)
+        except (IOError, OSError) as error:
+            return make_error(Left(UnableToPersistTrashInfo(error)))
         trashed = self.trash_dir.try_trash(trashee.path, trashed_file)
         if isinstance(trashed, Left):
             return make_error(trashed)
